@@ -2233,7 +2233,8 @@ def FBG(
         warnings.warn("No peaks found in the reflectivity of the grating.")
         bandwith_str = " - Δf = -- GHz (Δλ = -- nm)"
 
-    D = dispersion(H, gv.fs, fc)[ic]  # dispersion in ps/nm
+    D = dispersion(H, gv.fs, fc)
+    D = D[min(ic, D.size - 1)]  # dispersion in ps/nm (the derivative is shorter than H)
 
     # Print parameters of the grating
     if print_params:
@@ -2254,8 +2255,9 @@ def FBG(
         print("************************************\n")
 
     if filtfilt:  # correct H(w)
+        tg = tau_g(H, gv.fs)
         H = H * np.exp(
-            -1j * input.w(shift=True) * tau_g(H, gv.fs)[ic] * 1e-12
+            -1j * input.w(shift=True) * tg[min(ic, tg.size - 1)] * 1e-12
         )  # corrected H(w)
 
     # apply to input optical signal
